@@ -58,6 +58,63 @@ pub fn run(case: &str, args: &[String]) -> Option<Value> {
                 None => json!({"outcome": "err", "detail": "no rules"}),
             }
         }
+        "push.ops" => push_ops(&a[0], &a[1]),
         _ => return None,
     })
+}
+
+
+/// Runs a sequence of edit operations on a real `Ruleset`.
+/// start: "empty" | "default"; ops: JSON array of
+///   ["insert", kind, id, after|null, before|null] | ["remove", kind, id] | ["enable", kind, id, bool] | ["actions", kind, id]
+/// Returns per-op results and the final order of every kind as "id:enabled:default:nactions".
+fn push_ops(start: &str, ops: &str) -> Value {
+    use ruma_common::push::*;
+    let mut rs = if start == "default" {
+        Ruleset::server_default(<&ruma_common::UserId>::try_from("@u:s").unwrap())
+    } else {
+        Ruleset::new()
+    };
+    let ops: Vec<Vec<Value>> = serde_json::from_str(ops).unwrap();
+    let mut results = vec![];
+    let kind_of = |k: &str| RuleKind::from(k);
+    for op in ops {
+        let name = op[0].as_str().unwrap();
+        let kind = op[1].as_str().unwrap();
+        let id = op[2].as_str().unwrap();
+        let r = match name {
+            "insert" => {
+                let after = op[3].as_str();
+                let before = op[4].as_str();
+                let new = match kind {
+                    "override" => NewPushRule::Override(NewConditionalPushRule::new(id.to_owned(), vec![], vec![Action::Notify])),
+                    "underride" => NewPushRule::Underride(NewConditionalPushRule::new(id.to_owned(), vec![], vec![Action::Notify])),
+                    "content" => NewPushRule::Content(NewPatternedPushRule::new(id.to_owned(), "p".to_owned(), vec![Action::Notify])),
+                    "room" => match <ruma_common::OwnedRoomId>::try_from(id) {
+                        Ok(i) => NewPushRule::Room(NewSimplePushRule::new(i, vec![Action::Notify])),
+                        Err(_) => { results.push(json!("skip")); continue; }
+                    },
+                    _ => match <ruma_common::OwnedUserId>::try_from(id) {
+                        Ok(i) => NewPushRule::Sender(NewSimplePushRule::new(i, vec![Action::Notify])),
+                        Err(_) => { results.push(json!("skip")); continue; }
+                    },
+                };
+                match rs.insert(new, after, before) { Ok(()) => json!("ok"), Err(e) => json!(format!("err:{:?}", e)) }
+            }
+            "remove" => match rs.remove(kind_of(kind), id) { Ok(()) => json!("ok"), Err(e) => json!(format!("err:{:?}", e)) },
+            "enable" => match rs.set_enabled(kind_of(kind), id, op[3].as_bool().unwrap()) { Ok(()) => json!("ok"), Err(_) => json!("err:NotFound") },
+            "actions" => match rs.set_actions(kind_of(kind), id, vec![]) { Ok(()) => json!("ok"), Err(_) => json!("err:NotFound") },
+            _ => json!("?"),
+        };
+        results.push(r);
+    }
+    let d = |id: &str, e: bool, d: bool, n: usize| format!("{id}:{}:{}:{n}", e as u8, d as u8);
+    json!({"outcome": "ok", "detail": {
+        "results": results,
+        "override": rs.override_.iter().map(|r| d(&r.rule_id, r.enabled, r.default, r.actions.len())).collect::<Vec<_>>(),
+        "underride": rs.underride.iter().map(|r| d(&r.rule_id, r.enabled, r.default, r.actions.len())).collect::<Vec<_>>(),
+        "content": rs.content.iter().map(|r| d(&r.rule_id, r.enabled, r.default, r.actions.len())).collect::<Vec<_>>(),
+        "room": rs.room.iter().map(|r| d(r.rule_id.as_str(), r.enabled, r.default, r.actions.len())).collect::<Vec<_>>(),
+        "sender": rs.sender.iter().map(|r| d(r.rule_id.as_str(), r.enabled, r.default, r.actions.len())).collect::<Vec<_>>(),
+    }})
 }
